@@ -247,7 +247,16 @@ class SimRawReader(io.RawIOBase):
         return True
 
     def fileno(self):
-        raise io.UnsupportedOperation("fileno")
+        # a descriptor-level reader sees the same bytes (regular files do not short-read)
+        fn = getattr(self._src, "fileno", None)
+        if fn is None:
+            raise io.UnsupportedOperation("fileno")
+        try:
+            return fn()
+        except io.UnsupportedOperation:
+            raise
+        except Exception as e:  # noqa: BLE001
+            raise io.UnsupportedOperation("fileno") from e
 
     def isatty(self):
         return False
@@ -288,7 +297,11 @@ class SimRawWriter(io.RawIOBase):
                                                  (a seeded prefix of it may get out)
     """
 
-    def __init__(self, rng, knobs, counters, name="<stdout>", fault=None):
+    def __init__(self, rng, knobs, counters, name="<stdout>", fault=None, fd=None, fd_path=None):
+        """fd / fd_path: the real descriptor this stream stands for and the
+        scratch file behind it.  Bytes written to the descriptor directly
+        (os.write(fd), sys.stdout.fileno()) are merged into `data` in the order
+        a real process would emit them: before anything still buffered above."""
         super().__init__()
         self._rng = rng
         self._knobs = knobs or {}
@@ -299,12 +312,32 @@ class SimRawWriter(io.RawIOBase):
         self.data = bytearray()
         self.mode = "wb"
         self.dead = False
+        self._fd = fd
+        self._fd_path = fd_path
+        self._fd_pos = os.path.getsize(fd_path) if fd_path and os.path.exists(fd_path) else 0
 
     def writable(self):
         return True
 
+    def drain_fd(self):
+        if not self._fd_path:
+            return
+        try:
+            size = os.path.getsize(self._fd_path)
+            if size > self._fd_pos:
+                with _real_open(self._fd_path, "rb") as fh:
+                    fh.seek(self._fd_pos)
+                    extra = fh.read(size - self._fd_pos)
+                self._fd_pos = size
+                self.data += extra
+                self._c["direct_fd_bytes"] = self._c.get("direct_fd_bytes", 0) + len(extra)
+        except OSError:
+            pass
+
     def fileno(self):
-        raise io.UnsupportedOperation("fileno")
+        if self._fd is None:
+            raise io.UnsupportedOperation("fileno")
+        return self._fd
 
     def isatty(self):
         return False
@@ -312,6 +345,7 @@ class SimRawWriter(io.RawIOBase):
     def write(self, b):
         if self.dead:
             return len(memoryview(b).cast("B"))
+        self.drain_fd()
         self._n += 1
         self._c["raw_writes"] = self._c.get("raw_writes", 0) + 1
         mv = memoryview(b).cast("B")
@@ -360,3 +394,122 @@ def materialise(layout, root):
             os.makedirs(os.path.join(root, *parts[:-1]), exist_ok=True)
         with _real_open(os.path.join(root, *parts), "wb") as fh:
             fh.write(bytes.fromhex(f["content"]))
+
+
+class FdRawReader(io.RawIOBase):
+    """Raw reader over a real descriptor (the simulated process's fd 0, a pipe
+    fed chunk by chunk by PipeFeeder).  Short reads are real - they are what the
+    feeder's chunking produces - and EINTR / EIO are injected on top."""
+
+    def __init__(self, fd, rng, knobs, counters, name="<stdin>", fault=None):
+        super().__init__()
+        self._fd = fd
+        self._rng = rng
+        self._knobs = knobs or {}
+        self._c = counters
+        self.name = name
+        self._fault = fault
+        self._n = 0
+        self.mode = "rb"
+
+    def readable(self):
+        return True
+
+    def fileno(self):
+        return self._fd
+
+    def isatty(self):
+        return False
+
+    def readinto(self, b):
+        self._n += 1
+        self._c["raw_reads"] = self._c.get("raw_reads", 0) + 1
+        if self._fault and self._fault.get("kind") == "eio" and self._n == self._fault.get("at"):
+            self._c["fault_fired"] = self._c.get("fault_fired", 0) + 1
+            raise OSError(errno.EIO, "Input/output error (simulated)")
+        eintr = self._knobs.get("eintr", 0.0)
+        if eintr and self._rng.random() < eintr:
+            self._c["eintr_reads"] = self._c.get("eintr_reads", 0) + 1
+            raise InterruptedError(errno.EINTR, "Interrupted system call (simulated)")
+        n = len(b)
+        if n == 0:
+            return 0
+        data = os.read(self._fd, n)
+        if data and len(data) < n:
+            self._c["short_reads"] = self._c.get("short_reads", 0) + 1
+        b[: len(data)] = data
+        return len(data)
+
+
+class PipeFeeder:
+    """Feeds `data` into a pipe one planned chunk at a time: the next chunk is
+    written only when the pipe is empty, so every read of the other end sees at
+    most one chunk, whatever the real timing.  The chunk plan is drawn up front
+    from the seeded rng."""
+
+    def __init__(self, data, rng, knobs, counters):
+        import threading
+
+        self.data = bytes(data)
+        self.chunks = []
+        pos = 0
+        while pos < len(self.data):
+            k = _pick_chunk(rng, knobs, min(len(self.data) - pos, 32768))
+            if len(self.chunks) > 300:
+                k = len(self.data) - pos
+            self.chunks.append(self.data[pos : pos + k])
+            pos += k
+        counters["stdin_chunks"] = counters.get("stdin_chunks", 0) + len(self.chunks)
+        self.rfd, self.wfd = os.pipe()
+        self._stop = False
+        self._th = threading.Thread(target=self._run, name="sim-stdin-feeder", daemon=True)
+
+    def start(self):
+        self._th.start()
+
+    def _pending(self):
+        import array
+        import fcntl
+        import termios
+
+        buf = array.array("i", [0])
+        fcntl.ioctl(self.rfd_probe, termios.FIONREAD, buf)
+        return buf[0]
+
+    def _run(self):
+        import select
+
+        try:
+            for ch in self.chunks:
+                while not self._stop and self._pending() > 0:
+                    select.select([], [], [], 0.0002)  # real wait; affects timing only, never the bytes per read
+                if self._stop:
+                    break
+                os.write(self.wfd, ch)
+            while not self._stop and self._pending() > 0:
+                select.select([], [], [], 0.0002)
+        except OSError:
+            pass
+        finally:
+            try:
+                os.close(self.wfd)
+            except OSError:
+                pass
+
+    def install(self):
+        """Make the pipe's read end descriptor 0 of this process."""
+        self.saved0 = os.dup(0)
+        os.dup2(self.rfd, 0)
+        os.close(self.rfd)
+        self.rfd_probe = os.dup(0)
+        self.start()
+
+    def uninstall(self):
+        self._stop = True
+        os.dup2(self.saved0, 0)
+        os.close(self.saved0)
+        self._th.join(5)
+        try:
+            os.close(self.rfd_probe)
+        except OSError:
+            pass
